@@ -128,6 +128,8 @@ int harness_main(void) {
   rt_start();
   fiber_mutex_init(&M);
   fiber_cond_init(&C);
+  fmc_focus(&M, sizeof M);
+  fmc_focus(&C, sizeof C);
   fmc_begin();
   for (int i = 0; i < W + extra; i++) fiber_detach(fiber_create(STK, waiter, (void*)(intptr_t)i));
   fiber_detach(fiber_create(STK, signaller, 0));
